@@ -13,7 +13,7 @@ MAXP = [0, 0, 5, 6, 17, 199, 8190]
 
 def make_case(i, tier):
     sd = vfw.seed() * 1000003 + i
-    g = genlib.Gen(sd, dict(oas_props=False))
+    g = genlib.Gen(sd, dict(oas_props=False, odd_widths=True))
     lib = g.library()
     rnd = random.Random(sd)
     maxp = rnd.choice(MAXP)
